@@ -92,7 +92,7 @@ impl BroadcastReceiver {
         let mut cursor = self.next_record;
 
         if tail > cursor {
-            if !self.do_validate(cursor as Index) {
+            if !self.do_validate(cursor) {
                 let _ignored = self.lapped_count.fetch_add(1, Ordering::SeqCst);
                 cursor = self.buffer.get::<i64>(self.latest_counter_index);
             }
@@ -124,11 +124,13 @@ impl BroadcastReceiver {
 
     pub fn validate(&self) -> bool {
         atomics::acquire();
-        self.do_validate(self.cursor as Index)
+        self.do_validate(self.cursor)
     }
 
-    fn do_validate(&self, cursor: Index) -> bool {
-        cursor + self.capacity > self.buffer.get_volatile::<i64>(self.tail_intent_counter_index) as Index
+    // cursor and tail-intent are stream positions (i64): comparing them after truncation to i32
+    // overflowed (debug) or mis-detected laps (release) once 2^31 bytes had been broadcast.
+    fn do_validate(&self, cursor: i64) -> bool {
+        cursor + self.capacity as i64 > self.buffer.get_volatile::<i64>(self.tail_intent_counter_index)
     }
 }
 
